@@ -90,3 +90,32 @@ func VerifC23SendProgress() {
 func c21SentAll(s *clSess) (sends, acks, clears []*signaling_rpc.SessionRequest) {
 	return c21Sent(s, 0)
 }
+
+// VerifC23PromptAck: the same, but the re-open and the acknowledgement of the re-sent message are
+// delivered back to back and every run-to-block order of the reader, the session routine and the
+// pending Send is explored: the Send must not miss the acknowledgement that arrives before it has
+// noticed the new epoch.
+func VerifC23PromptAck() {
+	rt.SchedBound(0, true)
+	A, Me := clNewPeer(1), clNewPeer(60)
+	w := clNewWorld(Me, A, true)
+	w.sess.respCh <- clOpened(3)
+	rt.Quiesce()
+	var sendErr error
+	sendDone := false
+	rt.Go("send", func() {
+		_, sendErr = w.ref.Send(w.ctx, []byte{7})
+		sendDone = true
+	})
+	rt.Quiesce()
+	rt.Assert("the message was handed to the relay and the Send waits", !sendDone && len(w.sess.sent) == 2)
+	// the partner re-attached: the relay announces the new epoch and promptly acknowledges the re-sent message
+	w.sess.autoAck, w.sess.autoAckEpoch = true, 5
+	if rt.Choose("viaClosed", 2) == 1 {
+		w.sess.respCh <- clClosed()
+	}
+	w.sess.respCh <- clOpened(5)
+	rt.Quiesce()
+	rt.Assert("the pending Send succeeds although the acknowledgement came before it noticed the re-open", sendDone && sendErr == nil)
+	rt.Reach("end")
+}
